@@ -28,6 +28,35 @@ def nested_paths(spec, prefix=()):
     return out
 
 
+def leafless_levels(spec, prefix=()):
+    """known finding D16: declared nested containers none of whose direct sub fields is a leaf"""
+    out = set()
+    if isinstance(spec, dict):
+        for k, v in spec.items():
+            p = prefix + tuple(k.split("."))
+            if v:
+                if isinstance(v, dict) and all(v.values()):
+                    out.add(".".join(p))
+                out |= leafless_levels(v, p)
+    return out
+
+
+def touches_leafless_level(t, spec, prefix=()):
+    """the tree names a field at or below a leafless nested level"""
+    lv = leafless_levels(spec)
+    if not lv:
+        return False
+
+    def rec(n, prefix):
+        if type(n).__name__ == "SearchField":
+            prefix = prefix + tuple(n.name.split("."))
+            full = ".".join(prefix)
+            if any(full == p or full.startswith(p + ".") for p in lv):
+                return True
+        return any(rec(c, prefix) for c in n.children)
+    return rec(t, ())
+
+
 def innermost_nested(field, npaths):
     best = None
     parts = field.split(".")
@@ -321,7 +350,7 @@ def container_misuse(n, cfg, prefix=()):
             return None
         full = ".".join(prefix)
         nested_leaves = spec_paths(cfg["nested_fields"])
-        nested_containers = {p.rsplit(".", 1)[0] for p in nested_leaves}
+        nested_containers = nested_paths(cfg["nested_fields"])      # every declared nested level, with or without direct leaves
         object_leaves = cfg["object_fields"]
         if full in nested_containers:
             return "NestedSearchFieldException"
